@@ -81,7 +81,8 @@ def gen_chart(rng, game, keys=None, n=None, style=None, n_bpm=None, empty_p=0.12
         keys = None
     keys = keys or {"osu": rng.choice([1, 4, 4, 5, 7, 7, 8, 10, 18]), "qua": rng.choice([4, 7, 8]),
                     "sm": rng.choice([3, 4, 4, 6, 7, 8]), "bms": rng.choice([6, 8, 9]), "o2j": 7}[game]
-    n = rng.choice([0, 1, 2, 5, 12, 25]) if n is None else n
+    # sizes beyond the usual small ones: thresholds at which an implementation might switch strategy (64, 128 rows)
+    n = rng.choice([0, 1, 2, 5, 12, 25, 1, 2, 5, 12, 25, 70, 140]) if n is None else n
     style = style or rng.choice(["int_ms", "frac", "grid", "neg", "dup"])
     hits, holds = gen_notes(rng, keys, n, style)
     if rng.random() < empty_p:
